@@ -499,15 +499,20 @@ impl Deb822 {
     fn insert_empty_paragraph(&mut self, index: Option<usize>) -> Paragraph {
         let paragraph = Paragraph::new();
         let mut to_insert = vec![];
-        if self.0.children().count() > 0 {
+        let has_nodes = self.0.children().count() > 0;
+        let text = self.0.text().to_string();
+        // the last line of the file is not terminated (also when it is a comment and there is no
+        // paragraph at all): finish it before anything is appended
+        let unterminated = index.is_none() && !text.is_empty() && !text.ends_with('\n');
+        if has_nodes || unterminated {
             let mut builder = GreenNodeBuilder::new();
             builder.start_node(EMPTY_LINE.into());
-            let text = self.0.text().to_string();
-            if index.is_none() && !text.is_empty() && !text.ends_with('\n') {
-                // the last line of the file is not terminated: finish it before the blank line
+            if unterminated {
                 builder.token(NEWLINE.into(), "\n");
             }
-            builder.token(NEWLINE.into(), "\n");
+            if has_nodes {
+                builder.token(NEWLINE.into(), "\n");
+            }
             builder.finish_node();
             to_insert.push(SyntaxNode::new_root_mut(builder.finish()).into());
         }
